@@ -140,9 +140,9 @@ def run(c):
 
     state = {"shard": 0}
 
-    def observe(n, seed, feat, tuples=8, corpus=False, hist=0):
+    def observe(n, seed, feat, tuples=8, corpus=False, hist=0, data=0):
         tmp = os.path.join(c.work, "tmp-%d" % seed)
-        args = ["-seed", str(seed), "-n", str(n), "-hist", str(hist), "-tuples", str(tuples), "-feat", feat, "-tmp", tmp]
+        args = ["-seed", str(seed), "-n", str(n), "-hist", str(hist), "-data", str(data), "-tuples", str(tuples), "-feat", feat, "-tmp", tmp]
         if corpus:
             cdir = os.path.join(c.verif, "corpus", "C04")
             args += ["-corpus", cdir]
@@ -349,11 +349,11 @@ def run(c):
     dsl_differential(c.seed, 4 if not thorough else 24, "main")
 
     n = 120 if not thorough else 1500
-    progs, summ = observe(n, c.seed, "logic", corpus=True, hist=40 if not thorough else 400)
+    progs, summ = observe(n, c.seed, "logic", corpus=True, hist=40 if not thorough else 400, data=40 if not thorough else 500)
     compare(progs, summ, "main")
 
     def search():
-        progs2, summ2 = observe(400, c.seed + 1000, "logic", hist=100)
+        progs2, summ2 = observe(400, c.seed + 1000, "logic", hist=100, data=200)
         compare(progs2, summ2, "search")
 
     c.coverage["exhaustive"] = False
